@@ -156,12 +156,33 @@ impl SortingAttr {
                         }
                     }
 
-                    // Compare as floats.
-                    if let (Ok(a), Ok(b)) = (a.parse::<f64>(), b.parse::<f64>())
-                    {
-                        if let Some(ordering) = a.partial_cmp(&b) {
-                            break 'ordering ordering;
+                    // Compare as floats. To keep the order total on mixed
+                    // lists, a number goes before a non-number, and an
+                    // integer before a non-integer that `f64` cannot tell
+                    // apart from it.
+                    let a_f64 = a.parse::<f64>().ok().filter(|n| !n.is_nan());
+                    let b_f64 = b.parse::<f64>().ok().filter(|n| !n.is_nan());
+                    match (a_f64, b_f64) {
+                        (Some(a_f64), Some(b_f64)) => {
+                            if a_f64 < b_f64 {
+                                break 'ordering Ordering::Less;
+                            }
+                            if a_f64 > b_f64 {
+                                break 'ordering Ordering::Greater;
+                            }
+                            let a_int = a.parse::<i128>().is_ok()
+                                || a.parse::<u128>().is_ok();
+                            let b_int = b.parse::<i128>().is_ok()
+                                || b.parse::<u128>().is_ok();
+                            break 'ordering match (a_int, b_int) {
+                                (true, false) => Ordering::Less,
+                                (false, true) => Ordering::Greater,
+                                _ => Ordering::Equal,
+                            };
                         }
+                        (Some(_), None) => break 'ordering Ordering::Less,
+                        (None, Some(_)) => break 'ordering Ordering::Greater,
+                        (None, None) => {}
                     }
 
                     natural_cmp(a, b)
